@@ -203,29 +203,58 @@ def visibility_cases():
 
 
 def run_visibility(out):
+    """collide: another loaded module (`other.incn`, imported for an unrelated name) declares a *pub* item of the same name
+    as the private item of `lib` - the verdict about `lib`'s item must not depend on it."""
     base = os.path.join(ROOT, "vis")
     n = 0
     ok = set()
+    env = {"PATH": os.environ.get("PATH", ""), "RUST_LOG": "off"}
     for kind, form, libpath, decl, main in visibility_cases():
+        for collide in (False, True):
+            res = {}
+            main_text = ("from other import unrelated\n" + main) if collide else main
+            for vis in ("private", "pub"):
+                d = os.path.join(base, f"{kind}_{form}_{vis}_{int(collide)}")
+                shutil.rmtree(d, ignore_errors=True)
+                os.makedirs(os.path.dirname(os.path.join(d, libpath)), exist_ok=True)
+                text = ("pub " + decl if vis == "pub" else decl) + "\n\npub def other() -> int:\n    return 0\n"
+                open(os.path.join(d, libpath), "w").write(text)
+                if collide:
+                    open(os.path.join(d, "other.incn"), "w").write("pub " + decl + "\n\npub def unrelated() -> int:\n    return 0\n")
+                open(os.path.join(d, "main.incn"), "w").write(main_text)
+                p = subprocess.run([common.INCAN, "--no-banner", "--color", "never", "--check", "main.incn"], cwd=d, capture_output=True, text=True, timeout=60, env=env)
+                res[vis] = (p.returncode, (p.stdout + p.stderr)[-400:])
+                n += 1
+            if res["pub"][0] != 0:
+                continue  # the twin does not check on this tree: position unusable
+            tag = f"kind:{kind}|form:{form}" + ("|same-name-pub-in-another-module" if collide else "")
+            case = {"kind": kind, "form": form, "lib": decl, "main": main_text, "other_module_declares_pub_item_of_same_name": collide}
+            if res["private"][0] == 0:
+                out.fail(f"private-item-usable|{tag}", {**case, "check_output": res["private"][1]})
+            elif res["private"][0] != 1:
+                out.fail(f"check-abnormal-exit|{tag}", {**case, "exit": res["private"][0], "output": res["private"][1]})
+            else:
+                ok.add(("visibility", kind, form, collide))
+    # private items named like builtins (the symbol table already holds a public definition of that name)
+    for name, decl, use in [("len", "def len(x: int) -> int:\n    return x\n", "println(len(3))"), ("Option", "def Option(x: int) -> int:\n    return x\n", "println(Option(3))"),
+                            ("print", "def print(x: int) -> int:\n    return x\n", "println(print(3))"), ("range", "def range(x: int) -> int:\n    return x\n", "println(range(3))")]:
         res = {}
         for vis in ("private", "pub"):
-            d = os.path.join(base, f"{kind}_{form}_{vis}")
+            d = os.path.join(base, f"builtin_{name}_{vis}")
             shutil.rmtree(d, ignore_errors=True)
-            os.makedirs(os.path.dirname(os.path.join(d, libpath)), exist_ok=True)
-            text = ("pub " + decl if vis == "pub" else decl) + "\n\npub def other() -> int:\n    return 0\n"
-            open(os.path.join(d, libpath), "w").write(text)
-            open(os.path.join(d, "main.incn"), "w").write(main)
-            p = subprocess.run([common.INCAN, "--no-banner", "--color", "never", "--check", "main.incn"], cwd=d, capture_output=True, text=True, timeout=60, env={"PATH": os.environ.get("PATH", ""), "RUST_LOG": "off"})
+            os.makedirs(d)
+            open(os.path.join(d, "lib.incn"), "w").write(("pub " if vis == "pub" else "") + decl + "\n\npub def other() -> int:\n    return 0\n")
+            main_text = f"from lib import {name}\n\n\ndef main() -> None:\n    {use}\n"
+            open(os.path.join(d, "main.incn"), "w").write(main_text)
+            p = subprocess.run([common.INCAN, "--no-banner", "--color", "never", "--check", "main.incn"], cwd=d, capture_output=True, text=True, timeout=60, env=env)
             res[vis] = (p.returncode, (p.stdout + p.stderr)[-400:])
             n += 1
         if res["pub"][0] != 0:
-            continue  # the twin does not check on this tree: position unusable
+            continue
         if res["private"][0] == 0:
-            out.fail(f"private-item-usable|kind:{kind}|form:{form}", {"kind": kind, "form": form, "lib": decl, "main": main, "check_output": res["private"][1]})
-        elif res["private"][0] != 1:
-            out.fail(f"check-abnormal-exit|kind:{kind}|form:{form}", {"kind": kind, "form": form, "exit": res["private"][0], "output": res["private"][1]})
-        else:
-            ok.add(("visibility", kind, form))
+            out.fail(f"private-item-usable|kind:function-named-like-builtin:{name}|form:from_import", {"kind": "function", "form": "from_import", "lib": decl, "main": main_text, "check_output": res["private"][1]})
+        elif res["private"][0] == 1:
+            ok.add(("visibility", "builtin-name", name))
     shutil.rmtree(base, ignore_errors=True)
     return n, ok
 
@@ -305,7 +334,7 @@ def run(tier):
         "distinct_nontrivial": len(agree) + len(vis_ok) + len(g_ok),
         "rule": "resolution: project trees (all 12 candidate files for module m; each candidate alone; extension / file-vs-directory conflicts; none) x importer location "
         "(root, d/, d/e/) x 16 import spellings (import / from, :: and . paths, .., super, crate, aliases, item imports), plus the same spellings inside a transitively imported "
-        "module; visibility: 7 item kinds x 6 import forms with pub/non-pub twins through `incan --check`; graphs: import graphs on 3 files (quick: a fifth + all with <= 2 "
+        "module; visibility: 7 item kinds x 6 import forms with pub/non-pub twins through `incan --check`, each also with another loaded module declaring a pub item of the same name, plus private functions named like 4 builtins; graphs: import graphs on 3 files (quick: a fifth + all with <= 2 "
         "edges; thorough: all 512) through --check and --emit-rust, and 4 missing-module spellings; non-trivial = cases where CLI and language server agree / twins behave / graph terminated normally",
         "samples": [{"tree": "all_candidates", "entry": "in_d", "spelling": "from_parent_m"}, {"visibility": ["model", "from_import"]}, {"graph_edges": [["a", "b"], ["b", "a"]]}],
         "exhaustive": True,
